@@ -119,6 +119,9 @@ class Registry:
         self.ghostfuns = {}
         self.opaques = {}
         self.assumed = []          # contracts used at call sites but not verified (dependencies)
+        from .jsontree import TJObj, TJList
+        self.types.declare("JObj", TJObj())   # python-side JSON object model (bounded checks, see jsontree.py)
+        self.types.declare("JList", TJList())
 
     # --- declaration API used by /verif/contracts/*.py
     def record(self, name, fields, pyclass=None):
